@@ -498,7 +498,7 @@ def static_oracle(files: dict[str, str]) -> list[dict]:
                         nm = a.asname or a.name
                         own = (*importer, nm)
                         t = resolve_level(importer, True, node.level, node.module)
-                        if own in by_module and t is not None and (*t, a.name) != own:
+                        if (own in by_module or own in dirs) and t is not None and (*t, a.name) != own:
                             fails.append({"check": "import_resolves", "file": rel, "detail": f"`{ast.unparse(node)}` binds `{nm}` in the namespace of package {dotted(importer) or '<root>'}, which has a submodule `{nm}`: importing the submodule re-binds the name", "importer": importer, "is_init": True, "line": ast.unparse(node), "attr_shadow": True})
         # (3b) each use `alias.Name` of an imported submodule reaches a definition in that submodule
         for node in ast.walk(tree):
